@@ -320,9 +320,22 @@ def spec_contradicted(expr, obs):
 
 def value_equal(expr, out, rng) -> bool | None:
     """returned expression value-equal to the input at 3 seeded rational points (quantities by scale factor)"""
-    if expr.has(Derivative) or expr.atoms(sympy.core.function.AppliedUndef):
-        return None
-    from symplyphysics.core.operations.symbolic import Symbolic  # pylint: disable=import-outside-toplevel
+    funcs = sorted(expr.atoms(sympy.core.function.AppliedUndef) | out.atoms(sympy.core.function.AppliedUndef), key=str)
+    if funcs:
+        # applied functions (and derivatives of them) are evaluated on a concrete polynomial in their arguments; a function of an
+        # applied function (Lagrangian style) is left without a verdict
+        if not all(a.is_Symbol for f in funcs for a in f.args):
+            return None
+        fsub = {}
+        for i, f in enumerate(funcs):
+            body = S.One
+            for k, a in enumerate(f.args):
+                body = body * (Rational(2 * k + 3 + i, 2) + a)**5
+            fsub[f] = body
+        expr = expr.subs(fsub).doit()
+        out = out.subs(fsub).doit()
+        if expr.has(Derivative) or out.has(Derivative):
+            return None
     syms = sorted(expr.free_symbols | out.free_symbols, key=str)
     for _ in range(3):
         env = {}
@@ -372,6 +385,69 @@ def diagram_holds(expr, dim, rng):
     a, b = qx.dim_vec(q.dimension), qx.dim_vec(dim)
     erase = lambda d: d[:7] + (Fraction(0),) + d[8:]
     return None if erase(a) == erase(b) else f"inferred {b}, evaluated {a}"
+
+
+def wrapper_stream(ctx, n_random):
+    """Wrappers (Average, FiniteDifference, differentials) take their dimension from inference on THEIR OWN argument, whatever
+    was wrapped before or after in the process: a sequence of wrappers is constructed -- over catalogue symbols that are printed
+    alike but declared with different dimensions, and over generated expressions -- and afterwards every wrapper must still
+    carry the argument it was built from and the dimension the model infers for that argument."""
+    from symplyphysics import symbols as catalogue_symbols  # pylint: disable=import-outside-toplevel
+    from symplyphysics.core.symbols.symbols import DimensionSymbol  # pylint: disable=import-outside-toplevel
+    from symplyphysics.core.operations import symbolic  # pylint: disable=import-outside-toplevel
+    rng = ctx.rng
+    classes = [symbolic.Average, symbolic.FiniteDifference, symbolic.ExactDifferential, symbolic.InexactDifferential]
+    groups = {}
+    for name in sorted(dir(catalogue_symbols)):
+        o = getattr(catalogue_symbols, name)
+        if isinstance(o, DimensionSymbol) and isinstance(o, sympy.Symbol):
+            groups.setdefault(str(o), []).append(o)
+    alike = [v for _k, v in sorted(groups.items()) if len({str(o.dimension) for o in v}) > 1]
+    plan = []
+    for v in alike:
+        cls = rng.choice(classes)
+        members = list(v)
+        rng.shuffle(members)
+        for o in members:
+            plan.append((cls, o))
+        a, b = members[0], members[1]
+        other = rng.choice(alike)
+        cls2 = rng.choice(classes)
+        plan.append((cls2, a * other[0]))
+        plan.append((cls2, b * other[-1]))
+    for _ in range(n_random):
+        g = Gen(rng, 0.0)
+        vec, _a = rand_dimvec(rng)
+        plan.append((rng.choice(classes), g.expr(vec, rng.choice([0, 1, 2]))))
+    built = []
+    for cls, arg in plan:
+        try:
+            lit = sexpr_lit(arg)
+        except (qx.Unsupported, Exception):  # pylint: disable=broad-except
+            continue
+        try:
+            w = cls(arg)
+        except Exception as e:  # pylint: disable=broad-except
+            built.append((cls, arg, lit, None, f"{type(e).__name__}: {e}"[:160]))
+            continue
+        built.append((cls, arg, lit, w, ""))
+    cases = []
+    for cls, arg, lit, w, msg in built:     # observed only after EVERY wrapper has been constructed
+        if w is None:
+            olit, obs = "None", ("err", msg)
+        else:
+            try:
+                obs = ("ok", qx.dim_vec(w.dimension))
+            except qx.Unsupported:
+                continue
+            olit = f"(Some {qx.dim_lit(obs[1])})"
+            if sympy.sympify(w.factor) != sympy.sympify(arg):
+                ctx.violation(f"C06:wrapper-arg:{cls.__name__}({arg})"[:300],
+                    f"{cls.__name__}({arg}) no longer carries the argument it was built from: factor is {w.factor}",
+                    {"kind": "violation", "stream": "wrappers", "sequence": [f"{c.__name__}({a})" for c, a, *_ in built][:200],
+                     "wrapper": f"{cls.__name__}({arg})", "observed_factor": str(w.factor), "srepr_argument": sympy.srepr(arg)[:1000]})
+        cases.append({"lit": f"({lit}, {olit})", "desc": f"{cls.__name__}({arg})"[:300], "obs": obs, "arg": arg})
+    return cases
 
 
 # ---------------------------------------------------------------------------------------------
@@ -473,8 +549,23 @@ def run(ctx):
             ctx.violation(key, f"dimension inference contradicts the property on {c['desc'][:120]}: {why}", replay, True)
         else:
             ctx.violation(key, f"model and implementation disagree on {c['desc'][:120]}", replay, False)
+    wcases = wrapper_stream(ctx, ctx.pick(150, 2000))
+    badw = coqrun.eval_cases(ctx, "wrappers", PREAMBLE, [c["lit"] for c in wcases],
+        "fun c : sexpr * option dim => match infer_e (fst c), snd c with Ok (_, d) , Some d2 => deqb d d2 "
+        "| Err _, None => true | _, _ => false end")
+    for i in badw[:20]:
+        c = wcases[i]
+        try:
+            inferred = qx.dim_vec(ce(c["arg"])[1])
+        except Exception as e:  # pylint: disable=broad-except
+            inferred = f"{type(e).__name__}: {e}"[:120]
+        ctx.violation(f"C06:wrapper:{c['desc']}", f"wrapper {c['desc'][:120]} has dimension {c['obs'][1]}, inference on its own argument gives {inferred}",
+            {"kind": "violation", "stream": "wrappers", "wrapper": c["desc"], "gallina": c["lit"], "observed": str(c["obs"]),
+             "inferred_for_argument": str(inferred), "theorem_or_tie": "correspondence CollectE.infer_e(argument) ~ Symbolic(argument).dimension after a "
+             "sequence of wrapper constructions"}, True)
+    hist[("wrappers", "compared")] = len(wcases)
     distinct = len({c["lit"] for c in cases if any(k in c["lit"] for k in ("SMul", "SAdd", "SPow", "SFun", "SDeriv", "SMin", "SMax")) or c["obs"][0] == "err"})
-    ctx.evaluated(len(cases), distinct)
+    ctx.evaluated(len(cases) + len(wcases), distinct + len({c["lit"] for c in wcases}))
     for c in cases[:2] + [c for c in cases if c["stream"] == "malformed"][:2] + [c for c in cases if c["stream"] == "boundary"][:2]:
         ctx.sample({"stream": c["stream"], "expr": c["desc"][:200], "observed": str(c["obs"])[:200]})
     ctx.coverage["histogram"] = {f"{k[0]}:{k[1]}": v for k, v in sorted(hist.items())}
@@ -483,6 +574,8 @@ def run(ctx):
     ctx.coverage["rule"] = ("seeded trees (depth <= 4) over dimensioned symbols (random declared dimensions), Average/FiniteDifference wrappers, "
         "quantities incl. zero-scale, numbers incl. 0, applied dimensioned functions, derivatives, sin/cos/exp/log, + * ** Abs Min Max; "
         "malformed stream (inequivalent sums / min / max, dimensional exponents); boundary stream (zero quantity first, oo/nan, 0 + x, 2 + x). "
+        "wrapper stream: sequences of Average/FiniteDifference/differential constructions over the catalogue symbols that are printed alike "
+        "with different dimensions (45 groups) and over generated expressions, observed after the whole sequence. "
         "distinct = distinct Gallina literals; non-trivial = has a compound node or is refused")
 
 
